@@ -33,6 +33,7 @@ def run(check: Check, repo: Repo, tier: str) -> None:
     L.escape_tables(check, repo)
     L.block_escape(check, repo)
     L.escape_range(check, repo)
+    L.escape_pairs(check, repo)
     L.hex_digit_table(check, repo)
     L.block_flag(check, repo)
     L.printer_coverage(check, repo, model)
